@@ -42,8 +42,24 @@ Definition create_table_sim_hyp (s : schema) (a : action) : bool :=
            && forallb (key_valid (map c_name cols)) ks
            && forallb constraint_nonempty ks
            && nodup_str names && negb (mem_str "PRIMARY" names)
+           && forallb (fun nm => negb (mem_str nm (map fk_name (create_fks t ks)))) (map ix_name (plain_indexes t ks))
            && match add_fks (table_after_keys n) (catalog_of s) (create_fks t ks) with Ok _ => true | Err _ => false end
            && auto_by_pk (catalog_of_table n))%bool
       end
+  | _ => false
+  end.
+
+(* the action falls under one of the proved simulation lemmas of Properties/C04.v *)
+Definition sim_proved_for (s : schema) (a : action) : bool :=
+  match a with
+  | CreateTable _ _ _ => create_table_sim_hyp s a
+  | DeleteTable t => negb (referenced_by_other s t)
+  | RawSql _ => true
+  | AddColumn _ _ _ => add_column_sim_hyp s a
+  | DeleteColumn _ _ => delete_column_sim_hyp s a
+  | ModifyColumnType _ _ _ _ | ModifyColumnNullable _ _ _ _ | ModifyColumnDefault _ _ _ | ModifyColumnComment _ _ _ => modify_sim_hyp s a
+  | AddConstraint _ (CCheck _ _) => add_check_sim_hyp s a
+  | AddConstraint _ (CUnique _ _) | AddConstraint _ (CIndex _ _) => add_key_full_hyp s a
+  | RemoveConstraint _ (CCheck _ _) => remove_check_sim_hyp s a
   | _ => false
   end.
